@@ -4,9 +4,13 @@
 // loaded with ctypes by harness/py/c20_harness.py.  Nothing in /repo is patched.
 //
 // dispatch(task,length) performs the scripted list of execute(start,end,tid)
-// calls (tid = position in the script) in the scripted order, either on the
-// calling thread or each range on its own std::thread (all started together
-// behind a barrier, joined before returning).  When the script does not cover
+// calls in the scripted order.  Every script entry carries an explicit worker
+// id; workers() = max tid + 1, so a script may hand several sub-ranges to the
+// same worker (as real pools do: more sub-ranges than workers).  Either all
+// calls are made on the calling thread, or one std::thread per DISTINCT tid
+// executes that worker's sub-ranges in script order (all threads started
+// together behind a barrier, joined before returning; a worker id is never
+// active on two threads at once).  When the script does not cover
 // the dispatched length exactly (sum of range sizes != length, or a range past
 // the end) the task is executed unsplit and the event is counted.
 #include "PyImathTask.h"
@@ -21,7 +25,7 @@
 
 namespace {
 
-struct Rng { size_t start, end; };
+struct Rng { size_t start, end; int tid; };
 
 thread_local bool t_in_worker = false;
 
@@ -34,7 +38,12 @@ struct ScriptPool : public PyImath::WorkerPool
     std::atomic<long> dispatches{0}, ranges{0}, fallbacks{0}, exceptions{0}, nested{0};
     std::atomic<long> last_length{-1}, min_length{-1};
 
-    size_t workers() const override { return script.empty() ? 1 : script.size(); }
+    size_t workers() const override
+    {
+        int m = 0;
+        for (const Rng& r : script) if (r.tid > m) m = r.tid;
+        return (size_t) m + 1;
+    }
 
     bool inWorkerThread() const override { return report_in_worker || t_in_worker; }
 
@@ -63,12 +72,12 @@ struct ScriptPool : public PyImath::WorkerPool
             for (size_t k = 0; k < script.size(); ++k)
             {
                 ++ranges;
-                task.execute(script[k].start, script[k].end, (int) k);
+                task.execute(script[k].start, script[k].end, script[k].tid);
             }
             return;
         }
-        // threaded: one std::thread per range, released together
-        const size_t n = script.size();
+        // threaded: one std::thread per distinct worker id, released together
+        const size_t n = workers();
         std::vector<std::exception_ptr> errs(n);
         std::mutex m;
         std::condition_variable cv;
@@ -88,7 +97,9 @@ struct ScriptPool : public PyImath::WorkerPool
                 }
                 try
                 {
-                    task.execute(script[k].start, script[k].end, (int) k);
+                    for (const Rng& r : script)
+                        if ((size_t) r.tid == k)
+                            task.execute(r.start, r.end, r.tid);
                 }
                 catch (...)
                 {
@@ -103,7 +114,7 @@ struct ScriptPool : public PyImath::WorkerPool
             cv.notify_all();
         }
         for (auto& t : ts) t.join();
-        ranges += (long) n;
+        ranges += (long) script.size();
         for (size_t k = 0; k < n; ++k)
             if (errs[k])
             {
@@ -124,7 +135,18 @@ extern "C" {
 int shim_set_script(int n, const size_t* starts, const size_t* ends, int threaded)
 {
     g_pool.script.clear();
-    for (int i = 0; i < n; ++i) g_pool.script.push_back(Rng{starts[i], ends[i]});
+    for (int i = 0; i < n; ++i) g_pool.script.push_back(Rng{starts[i], ends[i], i});
+    g_pool.threaded = threaded != 0;
+    PyImath::WorkerPool::setCurrentPool(&g_pool);
+    g_installed = true;
+    return n;
+}
+
+// the same with an explicit worker id per script entry (ids may repeat); workers() = max tid + 1
+int shim_set_script_tids(int n, const size_t* starts, const size_t* ends, const int* tids, int threaded)
+{
+    g_pool.script.clear();
+    for (int i = 0; i < n; ++i) g_pool.script.push_back(Rng{starts[i], ends[i], tids[i] < 0 ? 0 : tids[i]});
     g_pool.threaded = threaded != 0;
     PyImath::WorkerPool::setCurrentPool(&g_pool);
     g_installed = true;
